@@ -4,7 +4,7 @@
 Require Extraction.
 Require Import ExtrOcamlBasic.
 From Coq Require Import NArith ZArith List.
-From Desert Require Import Outcome IO Types Codec CodecB CodecWf History Graph MiscProofs.
+From Desert Require Import Outcome IO Types Codec CodecB CodecWf History Graph MiscProofs CodecAlt.
 Extraction Blacklist List String Int.
 Extraction "model.ml"
   N.add N.mul N.sub N.div N.modulo N.eqb N.ltb N.leb N.of_nat N.to_nat N.succ N.pow
@@ -18,4 +18,4 @@ Extraction "model.ml"
   enc dec a_ops b_ops decodeA decodeB utf8_valid val_eqb cases_of bigint_to_be bigint_of_be
   field_generation made_optional_at in_removed str_store str_id
   wf_env wf_ty wf_val normv decl_at legal expected framed
-  encode_graph decode_graph renumber enc_seq_unknown.
+  encode_graph decode_graph renumber enc_seq_unknown enc_u.
